@@ -379,4 +379,10 @@ def _check_field(rr, ci, stmt, label, fld, ftype, q, read):
                 rr.ok(f"{stmt}|{k2}")
 
 
-RULES = [("C08-R1", rule_r1), ("C08-R2", rule_r2), ("C08-R3", rule_r3), ("C08-R4", rule_r4), ("C08-R5", rule_r5)]
+def _c06r8(ctx):
+    from .c06 import rule_r8
+
+    return rule_r8(ctx)
+
+
+RULES = [("C06-R8", _c06r8), ("C08-R1", rule_r1), ("C08-R2", rule_r2), ("C08-R3", rule_r3), ("C08-R4", rule_r4), ("C08-R5", rule_r5)]
